@@ -475,7 +475,7 @@ class StrategyMultiObjective(object):
         w = numpy.dot(invCholesky, v)
 
         # Under this threshold, the update is mostly noise
-        if w.max() > 1e-20:
+        if numpy.abs(w).max() > 1e-20:
             w_inv = numpy.dot(w, invCholesky)
             norm_w2 = numpy.sum(w ** 2)
             a = sqrt(alpha)
